@@ -68,7 +68,11 @@ def direction_a(ctx, cell, rng):
         ctx.sample({"direction": "joserfc->refjose", "cell": d, "token": tok})
 
 
-B_PLAINS = [b"", b"x", b"0123456789abcdef", b'{"iss":"joe"}', bytes(range(200, 256)) * 3, b"compress me " * 200]
+import random as _random
+_unit = _random.Random(8).randbytes(6000)
+B_PLAINS = [b"", b"x", b"0123456789abcdef", b'{"iss":"joe"}', bytes(range(200, 256)) * 3, b"compress me " * 200,
+            _unit * 8,                                   # 48 KB: back-references at distance 6000 across inflate output blocks
+            (_random.Random(9).randbytes(20000) * 6)[:110000]]   # distance 20000: needs the full 32 KiB window
 
 
 def direction_b(ctx, alg, enc, form, style, rng, zipmode="none", n=1):
@@ -124,6 +128,8 @@ def direction_b(ctx, alg, enc, form, style, rng, zipmode="none", n=1):
             ctx.violation("foreign-header-differs", f"protected header returned {v.protected!r}, sent {base.info['protected']!r}", case)
         if hasattr(v, "unprotected") and (v.unprotected or None) != (base.info["unprotected"] or None):
             ctx.violation("foreign-header-differs", f"unprotected header returned {v.unprotected!r}, sent {base.info['unprotected']!r}", case)
+    if len(pt) > 40000:
+        ctx.count("b_long_distance_plaintexts")
     if len(ctx.samples) < 4 and len(pt) < 100:
         ctx.sample({"direction": "refjose->joserfc", "alg": alg, "enc": enc, "form": form, "style": style, "token": base.token})
 
@@ -196,6 +202,16 @@ def run_shard(ctx):
         for ei, enc in enumerate(g.ENCS):
             if (zi * 8 + ei) % ctx.nshards == ctx.shard:
                 direction_b(ctx, "dir" if ei % 2 else "A256KW", enc, forms[(zi + ei) % 3], "compact", rng, zm)
+    # long-distance back references in every DEFLATE variant (a decoder with a small window cannot inflate them)
+    for zi, zm in enumerate(ZIPMODES[1:]):
+        if zi % ctx.nshards == ctx.shard % len(ZIPMODES[1:]):
+            for big in B_PLAINS[-2:]:
+                _saved = list(B_PLAINS)
+                B_PLAINS[:] = [big]
+                try:
+                    direction_b(ctx, "dir", g.ENCS[(zi + ctx.shard) % len(g.ENCS)], forms[zi % 3], "compact", rng, zm)
+                finally:
+                    B_PLAINS[:] = _saved
     for n in (2, 3, 4):
         for i in range(2):
             if (n * 2 + i) % ctx.nshards == ctx.shard:
@@ -220,7 +236,7 @@ def run_shard(ctx):
                     n=rng.choice([1, 1, 1, 2, 3]))
 
 
-REQUIRE = [("a_checked", 300, "joserfc->refjose tokens"), ("b_checked", 300, "refjose->joserfc tokens"), ("c_checked", 25, "published vectors")]
+REQUIRE = [("b_long_distance_plaintexts", 8, "refjose-built tokens whose DEFLATE stream needs the full window"), ("a_checked", 300, "joserfc->refjose tokens"), ("b_checked", 300, "refjose->joserfc tokens"), ("c_checked", 25, "published vectors")]
 
 
 def replay(ctx, case):
